@@ -106,6 +106,12 @@ def call(c, form):
         seq = buf[::2]
     elif form == "f32":
         seq = np.array(u, dtype=np.float32)
+    elif form in ("refill", "refill_f64"):
+        # a buffer the caller reuses: analysed once holding other data, refilled in place, analysed again
+        seq = np.array([(3 * x + i) % 4 for i, x in enumerate(u)], dtype=np.int64 if form == "refill" else np.float64)
+        rr = c["r"] + c["rfrac"] if c.get("rfrac") else c["r"]
+        cpl.apen(seq, m=c["m"], r=rr)
+        seq[:] = u
     else:                             # a narrow dtype
         seq = np.array(u, dtype=form)
     # a filtering level need not be whole: distances of whole numbers are within r + f exactly when they are within r (0 <= f < 1)
@@ -168,10 +174,10 @@ def oracle(c):
         va = call(c, "array")
         vs = call(c, "str") if c["digits"] else vl
         extra = {}
-        for form in ("column", "strided", "reversed", "int32", "int16", "f64column", "f64strided", "f32"):
+        for form in ("column", "strided", "reversed", "int32", "int16", "f64column", "f64strided", "f32", "refill", "refill_f64"):
             if form == "f32" and not all(abs(x) < 2 ** 24 for x in c["u"]):
                 continue
-            if form.startswith("f64") and not all(abs(x) < 2 ** 53 for x in c["u"]):
+            if "f64" in form and not all(abs(x) < 2 ** 53 for x in c["u"]):
                 continue
             if form == "int16" and not all(-30000 <= x <= 30000 for x in c["u"]):
                 continue
